@@ -9,6 +9,9 @@ def body(chk):
     sched_worlds.run(chk, 'C07')
     # the classifier's input: scenarios expanded from an outline carry the outline's and their Examples block's tags
     c16.obligations(chk, 'C07')
+    # Features::insert files every scenario under the type the classifier gives for THAT scenario
+    from checks import insert_retry
+    insert_retry.obligations(chk, 'C07')
 
 
 if __name__ == '__main__':
